@@ -795,3 +795,53 @@ func TestC07MidResend(t *testing.T) {
 		t.Fatalf("%d violations", nviol)
 	}
 }
+
+// TestC07QueueWithAPast: every ACK/NACK value (0..255) against every window
+// state (base, size) of small sequence spaces, reached after one or two full
+// trips round the sequence space (every slot of the retransmission buffer has
+// held a packet before; the first lap is TestC07WindowInjection's and C09's
+// ground). The bookkeeping must stay consistent with what is really
+// outstanding: base and top inside the space, the base only moves within
+// [old base, old top], values outside the window change nothing.
+func TestC07QueueWithAPast(t *testing.T) {
+	const unit = "TestC07QueueWithAPast"
+	rec := stats.New(t, "C07", unit)
+	var rc qCase
+	if stats.ReplayCase(unit, &rc) {
+		if v := checkQueueOp(rc); v != "" {
+			rec.Violation(v, "queue_with_a_past", rc)
+			t.Fatal(v)
+		}
+		return
+	}
+	if stats.ReplayMode() {
+		t.Skip()
+	}
+	nviol := 0
+	for s := 2; s <= 6; s++ {
+		for laps := 1; laps <= 2; laps++ {
+			for base := 0; base < s; base++ {
+				for size := 0; size <= s-1; size++ {
+					for _, op := range []string{"ack", "nack"} {
+						for v := 0; v < 256; v++ {
+							c := qCase{S: s, Base: base, Size: size, Op: op, V: v, Laps: laps}
+							rec.Case(true, fmt.Sprintf("%+v", c), "state_reached_after_full_laps")
+							if viol := checkQueueOp(c); viol != "" {
+								if nviol < 5 {
+									rec.Violation(viol, "queue_with_a_past", c)
+								}
+								nviol++
+							}
+						}
+					}
+				}
+			}
+		}
+	}
+	rec.Sample(qCase{S: 4, Base: 2, Size: 0, Op: "ack", V: 2, Laps: 1})
+	rec.SetExhaustive(true)
+	rec.Done()
+	if nviol > 0 {
+		t.Fatalf("%d violations", nviol)
+	}
+}
